@@ -2,6 +2,8 @@
 and options."""
 import copy
 
+import sys
+
 import numpy as np
 
 from .. import common, gen_all, curves, m1
@@ -191,7 +193,7 @@ def check(run):
 def replay(rec):
     pl = rec.get("payload") or {}
     if pl.get("kind") != "pair":
-        return True
+        return common.replay_by_rerun(sys.modules[__name__], rec)
 
     class R:
         bad = False
